@@ -42,6 +42,36 @@ type compo struct {
 	depth   int
 }
 
+// warmUp stores n regular events through a session of its own, which has ended when it returns.
+func warmUp(t *rapid.T, h mocrelay.Handler, n int) {
+	ctx, cancel := context.WithCancel(context.Background())
+	recv := make(chan mocrelay.ClientMsg)
+	send := make(chan mocrelay.ServerMsg)
+	ret := make(chan error, 1)
+	go func() { ret <- h.ServeNostr(ctx, send, recv) }()
+	now := time.Now().Unix()
+	for i := 0; i < n; i++ {
+		e := &mocrelay.Event{Pubkey: gen.Keys[i%2].Pub, Kind: 1, CreatedAt: now - int64(i%90), Tags: []mocrelay.Tag{}, Content: fmt.Sprint("warm-up ", i)}
+		gen.Seal(e)
+		select {
+		case recv <- &mocrelay.ClientEventMsg{Event: e}:
+		case <-time.After(10 * time.Second):
+			t.Fatalf("warm-up: EVENT not taken")
+		}
+		select {
+		case <-send:
+		case <-time.After(10 * time.Second):
+			t.Fatalf("warm-up: no OK")
+		}
+	}
+	cancel()
+	select {
+	case <-ret:
+	case <-time.After(10 * time.Second):
+		t.Fatalf("warm-up session did not end")
+	}
+}
+
 func buildBase(t *rapid.T, label string, allowMerge bool, c *compo) (mocrelay.Handler, any) {
 	kinds := []string{"default", "cache", "router", "router", "sqlite"}
 	if allowMerge {
@@ -51,7 +81,15 @@ func buildBase(t *rapid.T, label string, allowMerge bool, c *compo) (mocrelay.Ha
 	case "default":
 		return mocrelay.NewDefaultHandler(), "default"
 	case "cache":
-		return mocrelay.NewCacheHandler(rapid.IntRange(1, 50).Draw(t, label+"cap")), "cache"
+		capa := rapid.SampledFrom([]int{1, 5, 20, 50, 300}).Draw(t, label+"cap")
+		h := mocrelay.NewCacheHandler(capa)
+		// some caches already hold events, so that a REQ answer is much longer than any buffer on the way
+		pre := 0
+		if capa >= 50 && rapid.Bool().Draw(t, label+"prefill") {
+			pre = rapid.IntRange(30, capa).Draw(t, label+"prefilln")
+			warmUp(t, h, pre)
+		}
+		return h, map[string]any{"cache": capa, "prefilled": pre}
 	case "router":
 		r := mocrelay.NewRouterHandler(rapid.IntRange(1, 8).Draw(t, label+"buflen"))
 		c.routers = append(c.routers, r)
@@ -744,6 +782,121 @@ func TestC13SQLiteBlockedInserter(t *testing.T) {
 		}
 		col.Add("sqlite_blocked_return_us_sum", time.Since(t0).Microseconds())
 		col.Label("sqlite-blocked-inserter")
+		col.Case(true, hx.JSON(desc), func() any { return desc })
+	})
+}
+
+// TestC13LargeAnswerCut: the session is cut while a REQ answer that is much
+// longer than any buffer on the way (a prefilled cache, alone, wrapped or behind
+// a merge) is being delivered to a peer that reads only its first k messages.
+func TestC13LargeAnswerCut(t *testing.T) {
+	col := ev.For("C13").SetRule(c13Rule)
+	rapid.Check(t, func(t *rapid.T) {
+		n := rapid.IntRange(34, 300).Draw(t, "stored")
+		kind := rapid.SampledFrom([]string{"cache", "cache", "merge(cache,cache)", "merge(cache,default)", "merge(cache,router)"}).Draw(t, "base")
+		cache := mocrelay.NewCacheHandler(n + 10)
+		warmUp(t, cache, n)
+		var h mocrelay.Handler = cache
+		switch kind {
+		case "merge(cache,cache)":
+			other := mocrelay.NewCacheHandler(n + 10)
+			warmUp(t, other, rapid.IntRange(0, n).Draw(t, "stored_other"))
+			h = mocrelay.NewMergeHandler(cache, other)
+		case "merge(cache,default)":
+			h = mocrelay.NewMergeHandler(cache, mocrelay.NewDefaultHandler())
+		case "merge(cache,router)":
+			h = mocrelay.NewMergeHandler(mocrelay.NewRouterHandler(4), cache)
+		}
+		var reg *prometheus.Registry
+		var wraps []string
+		for i, nw := 0, rapid.IntRange(0, 2).Draw(t, "nwrap"); i < nw; i++ {
+			w := rapid.SampledFrom([]string{"logging", "prometheus", "sendunique", "maxlimit"}).Draw(t, fmt.Sprintf("wrap%d", i))
+			switch w {
+			case "logging":
+				h = mocrelay.Middleware(mocrelay.NewLoggingMiddleware(slog.New(slog.NewTextHandler(io.Discard, nil))))(h)
+			case "prometheus":
+				if reg != nil {
+					continue
+				}
+				reg = prometheus.NewRegistry()
+				h = mocrelay.Middleware(mocprom.NewPrometheusMiddleware(reg))(h)
+			case "sendunique":
+				h = mocrelay.Middleware(mocrelay.NewSendEventUniqueFilterMiddleware(1000))(h)
+			case "maxlimit":
+				h = mocrelay.Middleware(mocrelay.NewMaxLimitMiddleware(5000))(h)
+			}
+			wraps = append(wraps, w)
+		}
+		readK := rapid.SampledFrom([]int{0, 0, 1, 2, 10, 31, 32, 33, 40, 100}).Draw(t, "peer_reads")
+		var fs []*mocrelay.ReqFilter
+		switch rapid.IntRange(0, 2).Draw(t, "filters") {
+		case 0:
+			fs = []*mocrelay.ReqFilter{{}}
+		case 1:
+			fs = []*mocrelay.ReqFilter{{Limit: gen.Ptr(int64(rapid.IntRange(34, 400).Draw(t, "limit")))}}
+		default:
+			fs = []*mocrelay.ReqFilter{{Kinds: []int64{1}}, {Authors: []string{gen.Keys[0].Pub}}}
+		}
+		ending := rapid.SampledFrom([]string{"cancel", "cancel", "close-then-cancel"}).Draw(t, "ending")
+		desc := map[string]any{"composition": kind, "wrapped_in": wraps, "stored": n, "peer_reads": readK, "filters": gen.BriefFilters(fs), "ending": ending}
+		time.Sleep(time.Millisecond)
+		base, _ := mocrelayGoroutines()
+		gc0, gr0 := gauges(reg)
+		ctx, cancel := context.WithCancel(context.Background())
+		defer cancel()
+		recv := make(chan mocrelay.ClientMsg)
+		send := make(chan mocrelay.ServerMsg)
+		ret := make(chan error, 1)
+		go func() { ret <- h.ServeNostr(ctx, send, recv) }()
+		select {
+		case recv <- &mocrelay.ClientReqMsg{SubscriptionID: "big", ReqFilters: fs}:
+		case <-time.After(5 * time.Second):
+			hx.Fail(t, ev.Failure{Property: "C13", Signature: "ended-early", Clause: "the session takes a REQ", Case: desc, Observed: "REQ not taken"})
+		}
+		got := 0
+		for got < readK {
+			select {
+			case m := <-send:
+				got++
+				if _, is := m.(*mocrelay.ServerEOSEMsg); is {
+					readK = got
+				}
+			case <-time.After(time.Second):
+				readK = got
+			}
+		}
+		// the peer stops reading; give the reply a moment to pile up, then cut
+		time.Sleep(time.Duration(rapid.SampledFrom([]int{0, 200, 2000}).Draw(t, "pause_us")) * time.Microsecond)
+		if ending == "close-then-cancel" {
+			close(recv)
+			time.Sleep(200 * time.Microsecond)
+		}
+		cancel()
+		select {
+		case <-ret:
+		case <-time.After(5 * time.Second):
+			_, sample := mocrelayGoroutines()
+			hx.Fail(t, ev.Failure{Property: "C13", Signature: "serve-does-not-return", Clause: "after cancel ServeNostr returns promptly, whether or not the peer is still reading", Case: desc, Observed: "not returned after 5 s; a goroutine: " + firstLines(sample, 12)})
+		}
+		deadline := time.Now().Add(5 * time.Second)
+		for {
+			cur, sample := mocrelayGoroutines()
+			if cur <= base {
+				break
+			}
+			if time.Now().After(deadline) {
+				hx.Fail(t, ev.Failure{Property: "C13", Signature: "goroutine-leak", Clause: "every goroutine the session started has exited (cut in the middle of a long REQ answer, peer not reading)", Case: desc,
+					Observed: fmt.Sprintf("%d goroutines with a mocrelay frame, baseline %d; one of them: %s", cur, base, firstLines(sample, 14))})
+			}
+			time.Sleep(2 * time.Millisecond)
+		}
+		if reg != nil {
+			if gc, gr := gauges(reg); gc != gc0 || gr != gr0 {
+				hx.Fail(t, ev.Failure{Property: "C13", Signature: "gauge-leak", Clause: "connection/subscription gauges are back to their previous values", Case: desc,
+					Observed: fmt.Sprintf("connection gauge %v (was %v), subscription gauge %v (was %v)", gc, gc0, gr, gr0)})
+			}
+		}
+		col.Label("scenario:large-answer-cut")
 		col.Case(true, hx.JSON(desc), func() any { return desc })
 	})
 }
